@@ -210,11 +210,12 @@ inline void BuildProgram(Source& s, Lane l, DynNode& obj, ProgStyle style, int a
 				}
 				else op.key.s = "zz" + std::to_string(s.draw(l, 100));
 			}
-			if (!op.key.isInt && n > 0 && !obj.keys[0].isInt) op.key.cstr = obj.keys[0].cstr;
+			if (!op.key.isInt && n > 0 && !obj.keys[0].isInt) { op.key.cstr = obj.keys[0].cstr; op.key.carr = obj.keys[0].carr; }
 			bool clash = false;
 			for (auto& k : obj.keys) if (k == op.key) clash = true;
 			if (clash) { if (op.key.isInt) { op.key = Key(); op.key.s = "absentInt"; } else op.key.s += "#absent"; }
 			if (archive == A_XML) { for (auto& ch : op.key.s) if (ch == '#') ch = '_'; }
+			op.key.Seal();
 		}
 		else
 		{
